@@ -11,6 +11,8 @@ import (
 	"strings"
 	"time"
 
+	"github.com/indexsupply/shovel/shovel"
+
 	"verifh/checks"
 	"verifh/explore"
 	"verifh/fw"
@@ -35,6 +37,9 @@ type c04Job struct {
 	Restart string `json:"restart"` // "" | P1 | P2 | P3: this pair's thread restarts everything (loadTasks) before its second step
 	K       int    `json:"k"` // steps per pair thread in the explored phase
 	Batch   int    `json:"batch"`
+	CID     string `json:"cid,omitempty"`   // "" srcB has its own chain id | "same": both sources declare chain id 7 (two providers), different chains behind them | "same+chain": same id and node2 serves node1's chain
+	Prune   int    `json:"prune,omitempty"` // n > 0: housekeeping shovel.PruneTask(ctx, pg, n) runs once, between steps:
+	PruneBy string `json:"prune_by,omitempty"` // … on the thread of this pair, before the pair's second step (as restarts do)
 	Deep    bool   `json:"deep,omitempty"` // two deviations instead of one (thorough tier, two-pair jobs without restart)
 }
 
@@ -49,14 +54,14 @@ func init() {
 		ID:        "C04",
 		Level:     "model_checking",
 		Technique: "stateless model checking of the real pipeline (controlled scheduler over instrumented code, fake Postgres, two simulated nodes): all step-granular interleavings (plus preemption-bounded finer ones) of one thread per (source, integration) pair, one environment thread per source (growth + reorg) and a restart driver; oracle = frame condition on every commit diff (only rows and positions stamped with the acting pair may change), stamp of every inserted row, and per-pair projection of the pair's own canonical chain at quiescence",
-		Rule: "jobs = every subset of size 2 and 3 of {P1=(srcA,ig1), P2=(srcA,ig2), P3=(srcB,ig1)} (one shared table; srcA and srcB are different nodes with different chains; every pair has indexed block 1 before the explored phase) x declaration variant {same event, different events, same event with disjoint log_addr filters, different data plans on one client: headers+logs next to transaction indexing (full blocks) / next to the same event selecting tx_input (blocks+logs), identity columns (all / some) listed by the user in table.columns of the integration that shares the table (or of the only integration), one integration on two sources whose first input is filtered by reference (a database lookup per log inside Insert; no reorg in this job)} x restart {none, by P1 before its second step in the subset {P1,P2} (quick: variant same only; thorough: also by P2 there, and by P3 in {P1,P3} and {P2,P3})} x K=2 steps per pair (thorough also 3) with one reorg (longer replacement) per source; " +
+		Rule: "jobs = every subset of size 2 and 3 of {P1=(srcA,ig1), P2=(srcA,ig2), P3=(srcB,ig1)} (one shared table; srcA and srcB are different nodes with different chains; every pair has indexed block 1 before the explored phase) x declaration variant {same event, different events, same event with disjoint log_addr filters, different data plans on one client: headers+logs next to transaction indexing (full blocks) / next to the same event selecting tx_input (blocks+logs), identity columns (all / some) listed by the user in table.columns of the integration that shares the table (or of the only integration), one integration on two sources whose first input is filtered by reference (a database lookup per log inside Insert; no reorg in this job)} x restart {none, by P1 before its second step in the subset {P1,P2} (quick: variants same and addr; thorough: also by P2 there, and by P3 in {P1,P3} and {P2,P3})} x K=2 steps per pair (thorough also 3) with one reorg (longer replacement) per source; for the subsets with two sources also: both sources declaring the SAME chain id (different chains / the same chain behind them) and housekeeping shovel.PruneTask(n=2) once, before the second step of P1 or of P3 (on that pair's thread, like restarts); " +
 			"per job every schedule with free switches at the step boundaries of the first source's pairs and <= 1 preemption (thorough: 2 on the two-pair jobs without restart; three-pair jobs: quick 0, thorough 1); preemptive switches to a pair/environment thread only at RPC exchanges with its own node. Non-trivial = rows inserted by two different pairs or a reorg deletion committed; distinct = distinct (job, choice sequence).",
 		Assumptions: []string{
 			"fake Postgres (h/simpg) interprets the SQL shovel sends; simulated nodes (h/simeth) answer like well-behaved geth nodes",
 			"a commit is attributed to the pair whose harness thread issued it (goroutines spawned by a step belong to the step's thread)",
 			"a restart rebuilds ALL tasks (loadTasks, new source clients); a step already running on an old task finishes on it",
 			"after the explored phase every pair is stepped sequentially until it reports 'no new blocks' (number of integrations + 1) times in a row, horizon 4*head+8 steps",
-			"reductions: SQL statements of different pairs are not interleaved preemptively (only at step boundaries); the pair of the second source uses non-free step boundaries when both sources are present; in three-pair jobs the second source's reorg lands between that pair's two steps",
+			"reductions: in restart jobs only the restarting pair has free step boundaries; SQL statements of different pairs are not interleaved preemptively (only at step boundaries); the pair of the second source uses non-free step boundaries when both sources are present; in three-pair jobs the second source's reorg lands between that pair's two steps",
 		},
 		Budget:        map[string]time.Duration{"quick": 140 * time.Second, "thorough": 850 * time.Second},
 		MinNontrivial: 500,
@@ -84,7 +89,10 @@ func c04Jobs(thorough bool) []c04Job {
 				}
 				continue
 			}
-			if v == "idcols-some" && !thorough && ps != "12" && ps != "13" {
+			if idcQ := strings.HasPrefix(v, "idcols"); idcQ && !thorough && ps != "12" && ps != "13" {
+				continue // quick: declared identity columns on the sharing (12) and the lone (13) integration
+			}
+			if v == "plans-ev" && !thorough && ps == "123" {
 				continue
 			}
 			if !thorough && ps == "23" && (v == "event" || v == "addr") {
@@ -97,7 +105,7 @@ func c04Jobs(thorough bool) []c04Job {
 				jobs = append(jobs, c04Job{Pairs: ps, Var: v, K: 3, Batch: 1})
 			}
 			for i := 0; i < len(ps); i++ {
-				if !thorough && (i > 0 || only2 || idc || ps != "12" || v != "same") {
+				if !thorough && (i > 0 || only2 || idc || ps != "12") {
 					continue // quick: P1 restarts next to P2 (same source client)
 				}
 				if thorough && (len(ps) > 2 || only2 || idc || (ps != "12" && (v != "same" || ps[i] != '3'))) {
@@ -105,6 +113,22 @@ func c04Jobs(thorough bool) []c04Job {
 				}
 				jobs = append(jobs, c04Job{Pairs: ps, Var: v, Restart: "P" + ps[i:i+1], K: 2, Batch: 1})
 			}
+		}
+	}
+	// two providers of one chain id (different chains behind them / the same chain), and housekeeping prunes
+	for _, ps := range []string{"13", "123"} {
+		jobs = append(jobs, c04Job{Pairs: ps, Var: "same", CID: "same", K: 2, Batch: 1})
+		jobs = append(jobs, c04Job{Pairs: ps, Var: "same", Prune: 2, PruneBy: "P1", K: 2, Batch: 1})
+		if ps == "13" || thorough {
+			jobs = append(jobs, c04Job{Pairs: ps, Var: "same", Prune: 2, PruneBy: "P3", K: 2, Batch: 1})
+		}
+		if ps == "13" || thorough {
+			jobs = append(jobs, c04Job{Pairs: ps, Var: "same", CID: "same+chain", K: 2, Batch: 1})
+		}
+		if thorough {
+			jobs = append(jobs, c04Job{Pairs: ps, Var: "addr", CID: "same", K: 2, Batch: 1})
+			jobs = append(jobs, c04Job{Pairs: ps, Var: "same", Prune: 1, PruneBy: "P1", K: 3, Batch: 1})
+			jobs = append(jobs, c04Job{Pairs: ps, Var: "same", CID: "same", Prune: 2, PruneBy: "P3", K: 2, Batch: 1})
 		}
 	}
 	// heavy jobs first: the round-robin shards then get at most one of them each
@@ -122,6 +146,15 @@ func c04Jobs(thorough bool) []c04Job {
 		return 0
 	}
 	sort.SliceStable(jobs, func(a, b int) bool { return weight(jobs[a]) > weight(jobs[b]) })
+	// shard balance (16 round-robin shards): the lightest job (variant ref, < 1 s) shares the shard of the heaviest
+	if len(jobs) > 16 {
+		for i := range jobs {
+			if jobs[i].Var == "ref" && !jobs[i].Deep && i != 16 {
+				jobs[i], jobs[16] = jobs[16], jobs[i]
+				break
+			}
+		}
+	}
 	return jobs
 }
 
@@ -225,6 +258,11 @@ func c04Prepare(j c04Job) (*c04Prep, error) {
 	p := &c04Prep{gen: map[string]*simeth.Chain{}, init: map[string]*simeth.Chain{}, ops: map[string][]*simeth.Chain{}, final: map[string]*simeth.Chain{},
 		srcOf: map[string]string{"node1": "srcA", "node2": "srcB"}, cidOf: map[string]uint64{"node1": 7, "node2": 8}}
 	has := func(c string) bool { return strings.Contains(j.Pairs, c) }
+	cidB := uint64(8)
+	if j.CID != "" {
+		cidB = 7 // a second provider of the same chain id
+		p.cidOf["node2"] = 7
+	}
 	var s1, s2 []world.SrcRef
 	if has("1") {
 		s1 = append(s1, world.SrcRef{Name: "srcA", Start: 1})
@@ -268,14 +306,14 @@ func c04Prepare(j c04Job) (*c04Prep, error) {
 		p.pairs = append(p.pairs, c04Pair{"P2", "srcA", d2.Name, "node1", 7, d2})
 	}
 	if has("3") {
-		p.pairs = append(p.pairs, c04Pair{"P3", "srcB", d1.Name, "node2", 8, d1})
+		p.pairs = append(p.pairs, c04Pair{"P3", "srcB", d1.Name, "node2", cidB, d1})
 	}
 	if dr != nil { // the referenced integration's own pairs: stepped by the main thread only (set-up and drain)
 		for _, sr := range dr.Sources {
 			if sr.Name == "srcA" {
 				p.aux = append(p.aux, c04Pair{"R-A", "srcA", dr.Name, "node1", 7, dr})
 			} else {
-				p.aux = append(p.aux, c04Pair{"R-B", "srcB", dr.Name, "node2", 8, dr})
+				p.aux = append(p.aux, c04Pair{"R-B", "srcB", dr.Name, "node2", cidB, dr})
 			}
 		}
 	}
@@ -285,7 +323,7 @@ func c04Prepare(j c04Job) (*c04Prep, error) {
 		p.hosts = append(p.hosts, "node1")
 	}
 	if has("3") {
-		srcs = append(srcs, world.Source{Name: "srcB", ChainID: 8, URL: "http://node2", Batch: j.Batch, Conc: 1})
+		srcs = append(srcs, world.Source{Name: "srcB", ChainID: cidB, URL: "http://node2", Batch: j.Batch, Conc: 1})
 		p.hosts = append(p.hosts, "node2")
 	}
 	p.conf = world.ConfJSON(srcs, p.decls)
@@ -313,7 +351,11 @@ func c04Prepare(j c04Job) (*c04Prep, error) {
 		p.final[host] = c1
 	}
 	mk("node1", 1, "cp", "ap")
-	mk("node2", 11, "pc", "ca")
+	if j.CID == "same+chain" {
+		mk("node2", 1, "cp", "ap") // the second provider serves the very same chain (and the same reorg)
+	} else {
+		mk("node2", 11, "pc", "ca")
+	}
 	if len(c04PrepCache) > 32 {
 		c04PrepCache = map[string]*c04Prep{}
 	}
@@ -331,6 +373,7 @@ type c04Result struct {
 	inserters int // pairs that inserted at least one row
 	deletes   int // delete changes committed
 	restarts  int
+	pruned    int // positions deleted by the housekeeping prune
 	stepErrs  map[string]int
 	steps     []string
 }
@@ -363,6 +406,7 @@ func c04Exec(j c04Job, p *c04Prep, ch vrt.Chooser, states *vrt.StateSet, trace b
 		pairByThread[p.pairs[i].name] = &p.pairs[i]
 	}
 	var acting *c04Pair // pair the main thread is working for (drain phase)
+	pruning := false    // the running thread is inside the housekeeping prune
 	inserted := map[string]bool{}
 	w.Run(func() {
 		conf, err := world.ParseConf(p.conf)
@@ -417,6 +461,48 @@ func c04Exec(j c04Job, p *c04Prep, ch vrt.Chooser, states *vrt.StateSet, trace b
 			pr := pairByThread[name]
 			if name == "main" {
 				pr = acting
+			}
+			if pruning {
+				// housekeeping: may only delete positions, never a pair's latest one, never rows, and leaves at most n per pair
+				del := map[string][]uint64{}
+				for _, chg := range c.Ev.Changes {
+					tbl := strings.TrimPrefix(chg.Table, "public.")
+					if tbl != "shovel.task_updates" || chg.Op != "delete" {
+						vio("frame", "prune:changed-"+tbl+":"+tag, fmt.Sprintf("the prune (n=%d) %ss a row of table %s (row id %d)", j.Prune, chg.Op, tbl, chg.Row.ID))
+						return
+					}
+					k := strOf(chg.Row, "src_name") + "/" + strOf(chg.Row, "ig_name")
+					num, _ := numOf(chg.Row, "num")
+					del[k] = append(del[k], num)
+				}
+				kept := map[string][]uint64{}
+				for _, cu := range w.Cursors() {
+					kept[cu.Src+"/"+cu.IG] = append(kept[cu.Src+"/"+cu.IG], cu.Num)
+				}
+				for _, k := range sortedKeys(del) {
+					maxDel := uint64(0)
+					for _, n := range del[k] {
+						if n > maxDel {
+							maxDel = n
+						}
+					}
+					minKept, nk := ^uint64(0), len(kept[k])
+					for _, n := range kept[k] {
+						if n < minKept {
+							minKept = n
+						}
+					}
+					if nk == 0 || maxDel >= minKept {
+						vio("frame", "prune:latest-position-deleted:"+tag, fmt.Sprintf("the prune (n=%d) deleted positions %v of pair %s and kept %v: the pair's latest position is gone or a newer position was deleted before an older one", j.Prune, del[k], k, kept[k]))
+						return
+					}
+					if nk != j.Prune {
+						vio("frame", "prune:kept-count:"+tag, fmt.Sprintf("the prune (n=%d) deleted positions %v of pair %s but kept %d positions %v", j.Prune, del[k], k, nk, kept[k]))
+						return
+					}
+				}
+				res.pruned += len(c.Ev.Changes)
+				return
 			}
 			if pr == nil {
 				vio("frame", "commit-by-non-task-thread:"+tag, fmt.Sprintf("thread %s (no pair) committed %d changes, first on table %s", c.Thread, len(c.Ev.Changes), c.Ev.Changes[0].Table))
@@ -555,6 +641,9 @@ func c04Exec(j c04Job, p *c04Prep, ch vrt.Chooser, states *vrt.StateSet, trace b
 			// when both sources are present their step boundaries are ordinary scheduling points (a switch there
 			// costs a preemption), the boundaries of the first source's pairs are free
 			coarse := pr.host == "node2" && len(p.hosts) > 1
+			if j.Restart != "" && j.Restart != pr.name {
+				coarse = true // restart jobs: only the restarting pair's step boundaries are free switch points
+			}
 			pth := w.V.GoNamed(pr.name, func() {
 				stale, repoll := 0, false
 				for s := 0; s < j.K; s++ {
@@ -572,6 +661,29 @@ func c04Exec(j c04Job, p *c04Prep, ch vrt.Chooser, states *vrt.StateSet, trace b
 						// three-pair jobs: the second source's reorg lands between this pair's two steps
 						w.SetChain("node2", p.ops["node2"][0], "reorg")
 						envLeft["node2"] = 0
+					}
+					if j.Prune > 0 && j.PruneBy == pr.name && s == 1 {
+						// housekeeping between two steps: keep the n newest positions of every pair
+						pruning = true
+						err := shovel.PruneTask(w.Ctx, w.Pool, j.Prune)
+						pruning = false
+						if w.V.Closing() {
+							return
+						}
+						if err != nil {
+							vio("prune", "prune:error:"+errClass(err)+":"+tag, fmt.Sprintf("PruneTask(n=%d): %v", j.Prune, err))
+							return
+						}
+						cnt := map[string]int{}
+						for _, cu := range w.Cursors() {
+							cnt[cu.Src+"/"+cu.IG]++
+						}
+						for _, k := range sortedKeys(cnt) {
+							if cnt[k] > j.Prune {
+								vio("prune", "prune:more-than-n-kept:"+tag, fmt.Sprintf("after PruneTask(n=%d) pair %s still has %d positions", j.Prune, k, cnt[k]))
+								return
+							}
+						}
 					}
 					if j.Restart == pr.name && s == 1 {
 						// restart: discard every task and source client, rebuild them as the start-up path does
@@ -921,6 +1033,7 @@ func c04Run(c *fw.Ctx) {
 			c.Res.Traces++
 			c.Count("reorg_deletions_committed", int64(res.deletes))
 			c.Count("restarts", int64(res.restarts))
+			c.Count("positions_pruned", int64(res.pruned))
 			if res.inserters >= 2 {
 				c.Count("executions_with_rows_of_several_pairs", 1)
 			}
